@@ -337,6 +337,10 @@ void threshold_optimal
     threshold_direction direction = threshold_direction::regular
 )
 {
+    // nth_channel_view forms a reference to pixel (0,0), which an empty view does not have
+    if (src_view.width() == 0 || src_view.height() == 0)
+        return;
+
     if (mode == threshold_optimal_value::otsu)
     {
         for (std::size_t i = 0; i < src_view.num_channels(); i++)
